@@ -9,3 +9,4 @@ import OsyrisProofs.C04
 #print axioms Osyris.C04.C04_cube_not_finer
 #print axioms Osyris.C04.C04_preselect_sound
 #print axioms Osyris.C04.C04_box_sound
+#print axioms Osyris.C04.key_injective_current
